@@ -124,7 +124,11 @@ func cmdSchedRun(args []string) error {
 					if err == nil {
 						en.Flush(ctx, w)
 					}
-					line = fmt.Sprintf("%v|%v|%v|%s", cont, err != nil, false, w.String())
+					lg := ""
+					if st.Language != nil {
+						lg = st.Language.Code
+					}
+					line = fmt.Sprintf("%v|%v|%v|%s|%s", cont, err != nil, false, lg, w.String()) // (the format of serveQuiet)
 				}()
 				gm.Lock()
 				got[s] = line
